@@ -8,14 +8,15 @@
              Outcome(m, p) is the decision for request method m and path p in the current
              state, Visible(m, p) what a client / the generated responders can observe of it.
 
-   Text is Seq(code point).  The module carries its own tiny route matcher (DMatch: literal
-   and single-field segments only - all the dispatch property needs; C01 owns the router).
+   Text is Seq(code point).  The module carries its own small route matcher (DMatch: literal, single-field
+   and multi-field segments without converters - what the dispatch property needs; C01 owns the router, and the
+   splitting of a multi-field segment is taken from C01's SegMatch by INSTANCE).
 
    The invariants state the property declaratively, next to the operational Outcome, which
    follows the shape of the code (route lookup, then one ordered scan of sinks + statics). *)
 EXTENDS Bytes, TLC
 
-CONSTANTS Templates,       \* route templates offered to AddRoute: Seq([k: "lit"|"var", s: text])
+CONSTANTS Templates,       \* route templates offered to AddRoute: Seq([k: "lit"|"var"|"cx", s: text])
           ResKinds,        \* resources: [plain: SUBSET methods, sfx: SUBSET methods] (on_x / on_x_s)
           SinkPats,        \* sink prefixes: Seq([k: token kind, s: text / group name / alternatives]) (see SinkMatch)
           StaticPrefixes,  \* static prefixes (text, starting with "/", no trailing "/")
@@ -23,7 +24,7 @@ CONSTANTS Templates,       \* route templates offered to AddRoute: Seq([k: "lit"
           NewestFirst,     \* design switch: a new sink/static goes to the FRONT of its list (TRUE = the design)
           RoutesFirst      \* design switch: routes are consulted before sinks/statics (TRUE = the design)
 
-VARIABLES routes,    \* set of [tmpl, rid, sfx, impl]: at most one entry per template (re-adding overrides)
+VARIABLES routes,    \* set of [tmpl, rid, sfx, impl, ord]: at most one entry per template (re-adding overrides, ord stays)
           sinks,     \* Seq([id, pat])            in consultation order
           statics,   \* Seq([id, prefix, fb])     in consultation order
           sbs,       \* sink_before_static_route
@@ -58,9 +59,52 @@ SplitSlash(s) == SplitOn(s, SLASH)
 Segments(p) == SplitSlash(LStripSlash(p))
 
 -----------------------------------------------------------------------------
-(* DMatch: depth-first search over the tree of accepted templates; at every level a literal
-   child is tried before the (single) field child, with backtracking.  A field matches any
-   segment, the empty one included; its value is added only along the successful branch. *)
+(* template segments.  [k |-> "lit", s |-> text]   literal text, compared as text (whatever characters it contains)
+                        [k |-> "var", s |-> name]   one field spanning the whole segment: matches any segment, the empty one included
+                        [k |-> "cx",  s |-> text]   a multi-field ("complex") segment, s = the segment as written in the template,
+                                                    e.g. v{major}.{minor}: literal chunks and >= 1 field expressions (no converters).
+   How a multi-field segment splits a path segment is C01's: SegMatch!Split (leftmost field longest, every field non-empty,
+   the literal chunks as plain text) is reused, not copied. *)
+SM == INSTANCE SegMatch WITH CT <- [lf |-> 10]       \* characters are code points here: line feed = 10
+LBRACE == 123
+RBRACE == 125
+RECURSIVE CxItems(_)          \* the segment text -> the items of SegMatch (field names stay texts)
+CxItems(s) ==
+    IF s = <<>> THEN <<>>
+    ELSE IF Head(s) = LBRACE
+         THEN LET j == FindFrom(s, <<RBRACE>>, 0)
+              IN  <<[t |-> "fld", v |-> <<>>, f |-> Slice(s, 1, j), c |-> SM!NoConv]>> \o CxItems(Drop(s, j + 1))
+         ELSE LET j == FindFrom(s, <<LBRACE>>, 0)
+              IN  <<[t |-> "lit", v |-> Take(s, j), f |-> <<>>, c |-> SM!NoConv]>> \o CxItems(Drop(s, j))
+CxFields(s) == LET its == CxItems(s) IN {its[i].f : i \in {j \in DOMAIN its : its[j].t = "fld"}}
+(* what is left when every field expression is replaced by "v" (two multi-field siblings of one shape are refused) *)
+CxShape(s) == LET its == CxItems(s) IN Concat([i \in DOMAIN its |-> IF its[i].t = "fld" THEN <<118>> ELSE its[i].v])
+WellFormedCx(s) ==
+    LET its == CxItems(s)
+        F   == {j \in DOMAIN its : its[j].t = "fld"}
+    IN  /\ Len(its) >= 2 /\ F # {}
+        /\ \A j \in F : its[j].f # <<>> /\ \A x \in DOMAIN its[j].f : its[j].f[x] \notin {58, LBRACE, RBRACE}   \* no converter
+        /\ \A j \in DOMAIN its : j \notin F => \A x \in DOMAIN its[j].v : its[j].v[x] \notin {LBRACE, RBRACE, SLASH, 32}
+        /\ \A i, j \in F : i # j => its[i].f # its[j].f
+        /\ \A j \in F : (j + 1) \notin F                              \* two adjacent fields: no text between them to split at
+WellFormedTmpl(t) ==
+    /\ \A i \in DOMAIN t : t[i].k \in {"lit", "var", "cx"} /\ (t[i].k = "cx" => WellFormedCx(t[i].s))
+    /\ \A i, j \in DOMAIN t : i # j => (IF t[i].k = "cx" THEN CxFields(t[i].s) ELSE IF t[i].k = "var" THEN {t[i].s} ELSE {})
+                                       \cap (IF t[j].k = "cx" THEN CxFields(t[j].s) ELSE IF t[j].k = "var" THEN {t[j].s} ELSE {}) = {}
+
+(* one template segment against one path segment: whether it matches and the fields it binds *)
+NoHit == [ok |-> FALSE, kw |-> {}]
+SegHit(t, seg) ==
+    CASE t.k = "lit" -> [ok |-> t.s = seg, kw |-> {}]
+      [] t.k = "var" -> [ok |-> TRUE, kw |-> {[n |-> t.s, v |-> seg]}]
+      [] OTHER       -> LET r == SM!Split(CxItems(t.s), 1, seg, 0)
+                        IN  IF r.ok THEN [ok |-> TRUE, kw |-> {[n |-> r.caps[j].f, v |-> r.caps[j].s] : j \in DOMAIN r.caps}]
+                            ELSE NoHit
+
+(* DMatch: depth-first search over the tree of accepted templates; at every level the literal child is tried
+   first, then the multi-field children in the order in which they were created, then the (single) field child,
+   with backtracking: a child whose segment matches but whose branch holds no resource for the rest of the path
+   is abandoned and the walk goes on with the next sibling.  Field values are added only along the successful branch. *)
 Lit(t) == [k |-> "lit", s |-> t]
 Tmpls(rs) == {e.tmpl : e \in rs}
 IsNode(rs, pre) == \E e \in rs : IsPrefix(pre, e.tmpl)
@@ -68,8 +112,16 @@ HasEntry(rs, t) == \E e \in rs : e.tmpl = t
 EntryAt(rs, t) == CHOOSE e \in rs : e.tmpl = t
 ThroughField(rs, pre) == {e \in rs : IsPrefix(pre, e.tmpl) /\ Len(e.tmpl) > Len(pre) /\ e.tmpl[Len(pre) + 1].k = "var"}
 FieldChildren(rs, pre) == {e.tmpl[Len(pre) + 1] : e \in ThroughField(rs, pre)}
-(* the routers refuse two different fields at one position; the pools/generators respect that *)
-ConflictFree(rs) == \A t \in Tmpls(rs) : \A k \in 0..(Len(t) - 1) : Cardinality(FieldChildren(rs, SubSeq(t, 1, k))) <= 1
+CxChildren(rs, pre) == {e.tmpl[Len(pre) + 1] : e \in {x \in rs : IsPrefix(pre, x.tmpl) /\ Len(x.tmpl) > Len(pre) /\ x.tmpl[Len(pre) + 1].k = "cx"}}
+(* a tree node is created by the first add_route whose template runs through it: entries carry `ord`, the number of the
+   call that FIRST added their template (re-adding a template keeps it); tables written down without it fall back to rid *)
+OrdOf(e) == IF "ord" \in DOMAIN e THEN e.ord ELSE e.rid
+NodeOrd(rs, node) == LET O == {OrdOf(e) : e \in {x \in rs : IsPrefix(node, x.tmpl)}} IN CHOOSE o \in O : \A q \in O : o <= q
+(* the routers refuse two different fields at one position and two different multi-field segments of one shape;
+   the pools/generators respect that *)
+ConflictFree(rs) == \A t \in Tmpls(rs) : \A k \in 0..(Len(t) - 1) :
+                        /\ Cardinality(FieldChildren(rs, SubSeq(t, 1, k))) <= 1
+                        /\ \A a, b \in CxChildren(rs, SubSeq(t, 1, k)) : a # b => CxShape(a.s) # CxShape(b.s)
 
 NoRoute == [found |-> FALSE, tmpl |-> <<>>, kw |-> {}]
 
@@ -84,8 +136,17 @@ Dfs(rs, pre, segs, kw) ==
                      THEN (IF HasEntry(rs, node) THEN [found |-> TRUE, tmpl |-> node, kw |-> kw2] ELSE NoRoute)
                      ELSE Dfs(rs, node, segs, kw2)
         viaLit == Try(Lit(seg), kw)
+        RECURSIVE TryCx(_)
+        TryCx(C) ==                        \* the multi-field children not yet tried, oldest first
+            IF C = {} THEN NoRoute
+            ELSE LET c == CHOOSE c \in C : \A d \in C : NodeOrd(rs, Append(pre, c)) <= NodeOrd(rs, Append(pre, d))
+                     h == SegHit(c, seg)
+                     r == IF h.ok THEN Try(c, kw \cup h.kw) ELSE NoRoute
+                 IN  IF r.found THEN r ELSE TryCx(C \ {c})
+        viaCx == TryCx(CxChildren(rs, pre))
         fs == ThroughField(rs, pre)
     IN  IF viaLit.found THEN viaLit
+        ELSE IF viaCx.found THEN viaCx
         ELSE IF fs = {} THEN NoRoute
         ELSE LET f == (CHOOSE e \in fs : TRUE).tmpl[lvl] IN Try(f, kw \cup {[n |-> f.s, v |-> seg]})
 
@@ -187,11 +248,11 @@ StaticMatch(s, p) == IsPrefix(s.prefix \o <<SLASH>>, p) \/ (s.fb /\ p = s.prefix
 Remainder(s, p) == Drop(p, Len(s.prefix) + 1)
 (* what a static route that was picked does with the remainder (observation function only; C16 owns
    the details): it answers 404 itself for an empty remainder without fallback, for a remainder that
-   starts with "/" or contains "//"; otherwise it serves a file (the harness provides one) *)
+   starts with "/", contains "//" or ends with "."; otherwise it serves a file (the harness provides one) *)
 Serves(s, p) ==
     LET r == Remainder(s, p)
     IN  /\ (r # <<>> \/ s.fb)
-        /\ (r = <<>> \/ Head(r) # SLASH)
+        /\ (r = <<>> \/ (Head(r) # SLASH /\ r[Len(r)] # 46))
         /\ \A i \in 1..(Len(r) - 1) : ~(r[i] = SLASH /\ r[i + 1] = SLASH)
 
 -----------------------------------------------------------------------------
@@ -269,7 +330,8 @@ Put(seq, x) == IF NewestFirst THEN <<x>> \o seq ELSE Append(seq, x)
 ImplOf(kind, sfx) == IF sfx = "" THEN kind.plain ELSE kind.sfx
 
 (* effects of the accepted calls (also used, unguarded, by the trace judge) *)
-RouteEntry(t, id, kind, sfx) == [tmpl |-> t, rid |-> id, sfx |-> sfx, impl |-> ImplOf(kind, sfx)]
+RouteEntry(t, id, kind, sfx) == [tmpl |-> t, rid |-> id, sfx |-> sfx, impl |-> ImplOf(kind, sfx),
+                                 ord |-> IF HasEntry(routes, t) THEN OrdOf(EntryAt(routes, t)) ELSE id]
 RoutesWith(t, id, kind, sfx) == {e \in routes : e.tmpl # t} \cup {RouteEntry(t, id, kind, sfx)}
 SuffixSelectsNothing(kind, sfx) == sfx # "" /\ ImplOf(kind, sfx) = {}
 
@@ -317,7 +379,16 @@ Spec == Init /\ [][Next]_vars
 (* the property, clause by clause, for one request (m, p) with decision o.  c is the declarative
    reading of the path: c.p the path, c.segs its segments, c.hit whether some route template matches it, c.S / c.T
    the positions of the sinks / static routes that match it. *)
-SegsMatch(t, segs) == Len(t) = Len(segs) /\ \A i \in 1..Len(t) : t[i].k = "var" \/ t[i].s = segs[i]
+SegsMatch(t, segs) == Len(t) = Len(segs) /\ \A i \in 1..Len(t) : SegHit(t[i], segs[i]).ok
+(* the fields of template t with the values the segments give them *)
+TmplKw(t, segs) == UNION {SegHit(t[i], segs[i]).kw : i \in 1..Len(t)}
+(* a multi-field segment read back: its literal chunks and the (non-empty) values of its fields, in order, ARE the segment *)
+CxRebuilds(s, seg, kw) ==
+    LET its == CxItems(s)
+        val(f) == (CHOOSE x \in kw : x.n = f).v
+    IN  /\ \A j \in DOMAIN its : its[j].t = "fld" => /\ Cardinality({x \in kw : x.n = its[j].f}) = 1
+                                                     /\ val(its[j].f) # <<>>
+        /\ Concat([j \in DOMAIN its |-> IF its[j].t = "fld" THEN val(its[j].f) ELSE its[j].v]) = seg
 PathFacts(p) ==
     LET segs == Segments(p)
     IN  [p    |-> p,
@@ -357,9 +428,12 @@ SuffixIsolation(m, c, o) ==
 (* keyword arguments are exactly the template's fields (with the path's segments as values) / the
    prefix's named groups *)
 KwargsAreFields(m, c, o) ==
-    /\ o.kind = "Responder" => \E e \in routes : /\ e.rid = o.id
-                                                 /\ o.kw = {[n |-> e.tmpl[i].s, v |-> c.segs[i]] :
-                                                              i \in {j \in 1..Len(e.tmpl) : e.tmpl[j].k = "var"}}
+    /\ o.kind = "Responder" => \E e \in routes : /\ e.rid = o.id /\ SegsMatch(e.tmpl, c.segs)
+                                                 /\ {x.n : x \in o.kw} = {x.n : x \in TmplKw(e.tmpl, c.segs)}
+                                                 /\ Cardinality(o.kw) = Cardinality({x.n : x \in o.kw})
+                                                 /\ \A i \in 1..Len(e.tmpl) :
+                                                       /\ e.tmpl[i].k = "var" => [n |-> e.tmpl[i].s, v |-> c.segs[i]] \in o.kw
+                                                       /\ e.tmpl[i].k = "cx" => CxRebuilds(e.tmpl[i].s, c.segs[i], o.kw)
     /\ o.kind = "Sink" => \E i \in 1..Len(sinks) : /\ sinks[i].id = o.id
                                                    /\ {x.n : x \in o.kw} = GroupNames(sinks[i].pat)     \* the named groups, all of them,
                                                    /\ Cardinality(o.kw) = Cardinality(GroupNames(sinks[i].pat))   \* one value each,
